@@ -28,7 +28,7 @@ from plinio.cost import CostSpec, CostFn, params_bit
 from plinio.graph.inspection import shapes_dict
 from .graph import convert, mps_layer_map
 from .nn.module import MPSModule
-from .nn.qtz import MPSType
+from .nn.qtz import MPSType, MPSBaseQtz
 
 from .quant.quantizers import PACTAct, MinMaxWeight, QuantizerBias
 
@@ -232,7 +232,15 @@ class MPS(DNAS):
         :return: the precision-assignement found by the NAS
         :rtype: Dict[str, Dict[str, Any]]
         """
+        # `convert` forces `eval()` on the seed and runs it on the input example, which re-samples
+        # the architectural coefficients in eval mode: restore both afterwards
+        training_status = {m: m.training for m in self.seed.modules()}
+        sampled = {m: m.theta_alpha for m in self.seed.modules() if isinstance(m, MPSBaseQtz)}
         mod, _, _ = convert(self.seed, self._input_example, 'export')
+        for m, status in training_status.items():
+            m.training = status
+        for m, theta_alpha in sampled.items():
+            m.theta_alpha = theta_alpha
         return mod
 
     def summary(self) -> Dict[str, Dict[str, Any]]:
